@@ -30,6 +30,7 @@ from liquid2.exceptions import RequiredBlockError
 from liquid2.exceptions import StopRender
 from liquid2.exceptions import TemplateInheritanceError
 from liquid2.exceptions import TemplateNotFoundError
+from liquid2.unescape import quote_identifier
 
 if TYPE_CHECKING:
     from liquid2 import RenderContext
@@ -173,9 +174,10 @@ class BlockNode(Node):
         assert isinstance(self.token, TagToken)
         required = " required" if self.required else ""
         return (
-            f"{{%{self.token.wc[0]} block {self.name}{required} {self.token.wc[1]}%}}"
+            f"{{%{self.token.wc[0]} block {quote_identifier(self.name)}{required} "
+            f"{self.token.wc[1]}%}}"
             f"{self.block}"
-            f"{{%{self.end_tag_token.wc[0]} endblock {self.name} "
+            f"{{%{self.end_tag_token.wc[0]} endblock {quote_identifier(self.name)} "
             f"{self.end_tag_token.wc[1]}%}}"
         )
 
